@@ -169,9 +169,10 @@ func freePort() int {
 }
 
 type heliosProc struct {
-	cmd  *exec.Cmd
-	port int
-	log  string
+	cmd    *exec.Cmd
+	port   int
+	log    string
+	exited chan struct{} // closed once cmd.Wait returned
 }
 
 func wiPluginConfigs(chain []WiPlug) []config.PluginConfig {
@@ -271,8 +272,8 @@ func startHeliosOnce(cfg *config.Config, tag string) (*heliosProc, error) {
 		return nil, err
 	}
 	lf.Close()
-	hp := &heliosProc{cmd: cmd, port: cfg.Server.Port, log: lp}
 	exited := make(chan struct{})
+	hp := &heliosProc{cmd: cmd, port: cfg.Server.Port, log: lp, exited: exited}
 	go func() { cmd.Wait(); close(exited) }()
 	deadline := time.Now().Add(8 * time.Second)
 	for time.Now().Before(deadline) {
